@@ -7,7 +7,9 @@ import (
 
 // absoluteForm rewrites a quantified body that indexes a slice through at(ARR, OFF, i) with the bound
 // variable i into the equivalent statement over the absolute index q = OFF + i:
-//   forall q. body[i := q - OFF]  with at(ARR, OFF, i) replaced by (select ARR q), pattern (select ARR q)
+//
+//	forall q. body[i := q - OFF]  with at(ARR, OFF, i) replaced by (select ARR q), pattern (select ARR q)
+//
 // The two forms are equivalent (at(a,o,i) = a[o+i] by definition); emitting both lets the solver
 // instantiate the fact from either kind of term. Returns "" if the body has no such access.
 func absoluteForm(bn string, body string) string {
